@@ -81,7 +81,7 @@ def C06(tier):
     if tier == 'thorough':
         jobs += [
             bjob('barrier.n2.k2.r6', src, ['t0', 't1'], 6, ['-DVN=2', '-DROUNDS=2'], timeout=14000, mem_gb=16),
-            bjob('barrier.n3.k1.r4', src, ['t0', 't1', 't2'], 4, ['-DVN=3', '-DROUNDS=1'], timeout=14000, mem_gb=16),
+            bjob('barrier.n3.k1.r6', src, ['t0', 't1', 't2'], 6, ['-DVN=3', '-DROUNDS=1'], timeout=14000, mem_gb=16),
             bjob('barrier.n2.k1.r4.all', src, ['t0', 't1'], 4, ['-DVN=2', '-DROUNDS=1'], preempt='all', timeout=14000, mem_gb=16),
         ]
     return dict(jobs=jobs, assumptions=MODEL_ASSUMPTIONS,
@@ -217,8 +217,8 @@ def C15(tier):
 
 
 def C17(tier):
-    N = 4 if tier == 'quick' else 6
-    jobs = [ajob('cjm.n%d' % N, 'harness/C17_cjm.c', ['-DNMAX=%d' % N], unwind=2 * N + 6, timeout=6000, mem_gb=12,
+    N = 4 if tier == 'quick' else 5
+    jobs = [ajob('cjm.n%d' % N, 'harness/C17_cjm.c', ['-DNMAX=%d' % N], unwind=2 * N + 6, timeout=6000, mem_gb=24,
                  replace_calls=['myth_create_ex_body:stub_create', 'myth_join_body:stub_join'], extra=['--unwindset', 'myth_create_join_various_ex_aux:%d' % (N + 1), '--object-bits', '12'],
                  cfg=dict(restrict_fp=['myth_create_join_various_ex_aux::1::1::func/f0,f1,f2,f3,f4']),
                  bounds=dict(n='symbolic in [0,%d]' % N, symbolic='arg/result/id/func strides in {8,16} bytes, attr stride {1,2} x sizeof(attr), ids/results/attrs NULL or not, many vs various variant',
@@ -229,7 +229,7 @@ def C17(tier):
     variants = [(0, [], 'parallel_for'), (2, ['-DKTASKS=3'], 'task_group.k3'), (2, ['-DKTASKS=5'], 'task_group.k5')] if tier == 'quick' else [(0, [], 'parallel_for'), (1, [], 'parallel_for_step'), (2, ['-DKTASKS=3'], 'task_group.k3'), (2, ['-DKTASKS=5'], 'task_group.k5'), (2, ['-DKTASKS=0'], 'task_group.k0')]
     for i, extra_defs, nm in variants:
         jobs.append(Job('mtbb.%s' % nm, 'B', src='harness/C17_mtbb.cc', lang='c++', defs=['-DSCEN=%d' % i, '-DTASK_MEMORY_CHUNK_SZ=64', '-DTASK_GROUP_INIT_SZ=2'] + extra_defs,
-                        cbmc=['--unwind', '16'] + (['--unwindset', AUX + ':5'] if i < 2 else []) + ['--object-bits', '12'], timeout=7200, mem_gb=24,
+                        cbmc=['--unwind', '16'] + (['--unwindset', AUX + ':5'] if i < 2 else []) + ['--object-bits', '16' if i == 1 else '12'], timeout=7200, mem_gb=24,
                         cfg=dict(threads=[], plain=['verif_main'], opt_pipe=PLAIN, opts={}, havoc_ok=['__cxa_pure_virtual']),
                         bounds=dict(indices='first,last symbolic in [-2,6], at most 3 indices in the range, step in [1,3]; task_group: 0, 3 or 5 run() calls (fixed per query) + reuse after wait; header knobs TASK_MEMORY_CHUNK_SZ=64, TASK_GROUP_INIT_SZ=2 (inline capacity 2, so the overflow paths are reached early)', unwind='16 loops / 5 recursion')))
     return dict(jobs=jobs, assumptions=A_ASSUME + ['myth_create_ex_body / myth_create is replaced by "run the child to completion now", myth_join by a no-op (the concurrent create/join protocol is C01)',
@@ -271,7 +271,7 @@ def C02(tier):
     src = 'harness/C02_deque.c'
     def dj(name, mode, threads, rounds, tso, cap=8, timeout=1800, mem=10):
         return bjob(name, src, threads, rounds, ['-DMODE=%d' % mode, '-DCAP=%d' % cap], preempt='all', tso=tso, timeout=timeout, mem_gb=mem,
-                    delete=['empty_loop'], special={}, extra_cfg=dict(env_model=None), bounds=dict(capacity=cap), unwind=cap + 2)
+                    delete=['empty_loop'], special={}, extra_cfg=dict(env_model=None, ptr_memmove=True), bounds=dict(capacity=cap), unwind=cap + 2)
     T2 = ['t0', 't1']; T3 = ['t0', 't1', 't2']
     jobs = [dj('deque.pop2_take.sc.r3', 0, T2, 3, False), dj('deque.pop2_take.tso.r3', 0, T2, 3, True),
             dj('deque.pushpop_take.tso.r3', 8, T2, 3, True), dj('deque.pop_take_take.tso.r3', 3, T3, 3, True),
